@@ -4,6 +4,8 @@ Request  : `<op> <int> <int> …`  (lists are length-prefixed, strings hex-encod
 Response : one line, `OK …` or `ERR <PythonExceptionName>`
 -/
 import CnfgenModel.Core.Sem
+import CnfgenModel.Build.Constr
+import CnfgenModel.Graph.Basic
 namespace Cnfgen.Driver
 
 abbrev Args := List Int
@@ -78,5 +80,18 @@ def fmtExcept {α} (f : α → String) : Except Err α → String
 def strOfInts (l : List Int) : String := String.ofList (l.map (fun i => Char.ofNat i.toNat))
 def str : P String := do let l ← ints; pure (strOfInts l)
 def intsOfStr (s : String) : List Int := s.toList.map (fun c => (c.toNat : Int))
+
+/-! graph literals: `n m u₁ v₁ … u_m v_m` (bipartite: `l r m u₁ v₁ …`), built by the model's
+own `addEdge` in the given order -/
+def simpleG : P (Except Err SimpleG) := do let n ← nat; let es ← natPairs; pure (SimpleG.ofEdges n es)
+def diG : P (Except Err DiG) := do let n ← nat; let es ← natPairs; pure (DiG.ofEdges n es)
+def bipG : P (Except Err BipG) := do let l ← nat; let r ← nat; let es ← natPairs; pure (BipG.ofEdges l r es)
+
+def fmtPairs (l : List (Nat × Nat)) : String :=
+  toString l.length ++ l.foldl (fun s p => s ++ " " ++ toString p.1 ++ " " ++ toString p.2) ""
+
+/-- a formula-class tag: 0 = CNF, 1 = OPB -/
+def fmtFormula (cls : Int) (F : Formula) : String :=
+  if cls == 0 then fmtCNF F.toCNF else fmtOPB F.toOPB
 
 end Cnfgen.Driver
